@@ -278,7 +278,7 @@ async fn run_case(c: &Case) -> CheckResult {
                 let s = stations.remove(*k as usize % stations.len());
                 s.cancel.cancel();
                 drop(s.stream);
-                for _ in 0..2000 {
+                for _ in 0..8000 {
                     settle().await;
                     if s.task.is_finished() {
                         break;
